@@ -672,7 +672,12 @@ fn mismatch_kind(want: &T, got: &T) -> String {
                 _ => true,
             };
         if !same_top {
-            return Some(format!("{}-vs-{}", tag(w), tag(g)));
+            // unordered pair: the shrinker may flip which of the two operators ends up on top
+            let (mut a, mut b) = (tag(w), tag(g));
+            if a > b {
+                std::mem::swap(&mut a, &mut b);
+            }
+            return Some(format!("{a}~{b}"));
         }
         let (cw, cg) = (w.children(), g.children());
         if cw.len() != cg.len() {
@@ -732,8 +737,10 @@ pub fn build(b: &mut Bytes, depth: usize) -> T {
         let n = lo + (b.next() as usize) % (hi - lo + 1);
         (0..n).map(|_| build(b, d)).collect()
     };
+    // byte 0 decodes to a leaf so that shrinking the byte program shrinks the tree
     match k % 32 {
-        0..=11 => {
+        0 => leaf(b),
+        1..=11 => {
             let op = ALL_OPS[b.next() as usize % ALL_OPS.len()];
             T::Bin(Box::new(build(b, d)), op, Box::new(build(b, d)))
         },
